@@ -73,6 +73,11 @@ class SimLock:
 
     def release(self):
         if not self._locked:
+            s = RT.sched
+            if s is not None:
+                cur = s.cur()
+                if s.teardown or (cur is not None and cur.killed):
+                    raise sk.SimKilled()      # unwinding: keep unwinding
             raise RuntimeError("release unlocked lock")
         self._locked = False
 
@@ -155,10 +160,14 @@ class SimSemLock:
         if sem.value == 0:
             if not block:
                 return False
+            cur = s.cur()
+            cur.wobj = sem
             ok = s.block_until(lambda: sem.value > 0, timeout, "sem")
+            cur.wobj = None
             if not ok:
                 return False
         sem.value -= 1
+        sem.last_acq = self._proc.pid if self._proc is not None else None
         self.count += 1
         self.last_tid = sk.REAL_GET_IDENT()
         return True
@@ -176,7 +185,7 @@ class SimSemLock:
                 raise ValueError("semaphore or lock released too many times")
         s.yield_("sem.rel")
         p = self._proc
-        if p is not None and not p.alive:
+        if (p is not None and not p.alive) or s.teardown:
             raise sk.SimKilled()
         self._sem.value += 1
         self.count -= 1
@@ -191,7 +200,7 @@ class SimSemLock:
 def sim_sem_unlink(name):
     k = RT.kernel
     cur = RT.sched.cur()
-    if cur is not None and not cur.proc.alive:
+    if (cur is not None and not cur.proc.alive) or RT.sched.teardown:
         raise sk.SimKilled()
     sem = k.sems.pop(name, None)
     if sem is None:
@@ -753,6 +762,11 @@ def patch_threading():
         if args.exc_type is sk.SimKilled:
             return
         run = RT.run
+        s = RT.sched
+        if s is not None:
+            cur = s.cur()
+            if s.teardown or (cur is not None and cur.killed):
+                return                    # post-mortem noise of the unwinding
         if run is not None:
             run.thread_excs.append((getattr(args.thread, "name", "?"), args.exc_type.__name__,
                                     str(args.exc_value)[:300], sk._innermost_repo_func(args.exc_traceback)))
